@@ -140,6 +140,8 @@ def fold_cases():
                 q = ["time", ["cmp", c, f"t:{inst}@zi:{zone}"]]
                 ops.append(["count", q, "~"])
                 ops.append(["search", ["not", q], "~", "1"])
+                # the same comparison behind a transform of the time (a query without a hash)
+                ops.append(["count", ["time", ["map", ["addus", "n:0"], ["cmp", c, f"t:{inst}@zi:{zone}"]]], "~"])
             ops.append(["update", "0", ["time", ["cmp", "eq", f"t:{inst}@zi:{zone}"]], "~", ["time", ["s", f"{inst + 5}@zi:{zone}"]],
                         ["meas", "~"], ["tags", "~"], ["fields", "~"], ["unsettags"], ["unsetfields"]])
             ops.append(["remove", ["time", ["cmp", "eq", f"t:{inst + 5}@zi:{zone}"]], "~"])
@@ -183,6 +185,27 @@ def naive_checks(tf, tzname):
         n += 1
         if not (got.tzinfo is not None and got.utcoffset() == timedelta(0) and t0 - timedelta(seconds=1) <= got <= t1):
             out.append(f"a point without time was stamped {got!r}, expected an aware UTC time in [{t0!r}, {t1!r}]")
+        # ... also when an earlier insert of the same object was rejected: the time of the failed attempt must not stick
+        for storage_kw in ({"storage": MemoryStorage},):
+            p = tf.Point()
+            p.tags = {"k": "v"}
+            p.tags["k"] = 5                      # invalid after construction: the insert is rejected
+            db = tf.TinyFlux(**storage_kw)
+            try:
+                db.insert(p)
+                rejected = False
+            except ValueError:
+                rejected = True
+            p.tags["k"] = "v"
+            _time.sleep(0.05)
+            t0 = datetime.now(timezone.utc)
+            db.insert(p, measurement="later")
+            t1 = datetime.now(timezone.utc)
+            got = db.all()[0].time
+            n += 1
+            if rejected and not (t0 <= got <= t1):
+                out.append(f"a time-less point whose first insert was rejected was stored, on its second insert, with the time {got!r} "
+                           f"of the failed attempt; the insertion happened in [{t0!r}, {t1!r}]")
     return out, n
 
 
